@@ -1168,13 +1168,13 @@ def _argspace_exec(args):
     def tbl(bk, key, name):
         return pdt.Table(frames[key], name=name) if bk == "polars" else pdt.Table(name, pdt.SqlAlchemy(eng), name=name)
 
-    def keytbl(bk, side, keys):
-        """(lid | rid, k) table for a key sequence (0 = NULL); created on first use"""
-        key = (side, tuple(keys))
-        name = f"j{side}_" + "".join(map(str, keys)) + "x"
+    def keytbl(bk, side, keys, kfloat=False):
+        """(lid | rid, k) table for a key sequence (0 = NULL); created on first use; kfloat: the key column is Float64"""
+        key = (side + ("f" if kfloat else ""), tuple(keys))
+        name = f"j{side}{'f' if kfloat else ''}_" + "".join(map(str, keys)) + "x"
         if key not in frames:
-            frames[key] = pl.DataFrame({side + "id": list(range(1, len(keys) + 1)), "k": [None if v == 0 else v for v in keys]},
-                                       schema={side + "id": pl.Int64, "k": pl.Int64})
+            frames[key] = pl.DataFrame({side + "id": list(range(1, len(keys) + 1)), "k": [None if v == 0 else (float(v) if kfloat else v) for v in keys]},
+                                       schema={side + "id": pl.Int64, "k": pl.Float64 if kfloat else pl.Int64})
             frames[key].write_database(name, eng, if_table_exists="replace")
         return tbl(bk, key, name)
 
@@ -1282,7 +1282,7 @@ def _argspace_exec(args):
                     byrid = dict(zip(df["rid"].to_list(), df["r"].to_list()))
                     rec["out"] = [99 if byrid[i] is None else int(byrid[i]) for i in range(1, len(keys) + 1)]
                 elif c["verb"] == "joinrows":
-                    lt, rt = keytbl(bk, "l", c["l"]), keytbl(bk, "r", c["r"])
+                    lt, rt = keytbl(bk, "l", c["l"]), keytbl(bk, "r", c["r"], kfloat=c.get("form") == "rfloat")
                     if not c.get("named", True) and bk == "polars":
                         lt, rt = pdt.Table(frames[("l", tuple(c["l"]))]), pdt.Table(frames[("r", tuple(c["r"]))])
                     on = ("k" if c["on"] == "str" else (lt.k == rt.k) if c["on"] == "eq" else (lt.k <= rt.k) if c["on"] == "le"
@@ -1298,8 +1298,19 @@ def _argspace_exec(args):
                         on = (lt.k == rt.k) & (lt.k <= rt.k) & (lt.lid <= rt.rid)
                     elif fm == "all3":
                         on = pdt.all(lt.k == rt.k, lt.k <= rt.k, lt.lid <= rt.rid)
-                    df = lt >> join(rt, on, how=c["how"]) >> export(pdt.Polars())
-                    rec["out"] = [[a or 0, b or 0] for a, b in zip(df["lid"].to_list(), df["rid"].to_list())]
+                    if c["on"] == "cross":
+                        from pydiverse.transform import cross_join
+
+                        df = lt >> cross_join(rt) >> export(pdt.Polars())
+                    else:
+                        df = lt >> join(rt, on, how=c["how"]) >> export(pdt.Polars())
+                    ridc = next(n for n in df.columns if n.startswith("rid"))        # an empty condition suffixes every right column
+                    if c.get("form") == "rfloat" and bk == "polars":
+                        # the right key column keeps its own type (Float64) whatever the left key's type is
+                        rk = [n for n in df.columns if n.startswith("k") and n != "k"]
+                        if not rk or str(df.schema[rk[0]]) != "Float64":
+                            raise TypeError(f"right key column exported as {dict(df.schema)}")
+                    rec["out"] = [[a or 0, b or 0] for a, b in zip(df["lid"].to_list(), df[ridc].to_list())]
                 else:
                     lt, rt = tbl(bk, "ul", "ul"), tbl(bk, "ur", "ur")
                     le = lt >> select(*[lt[n] for n in c["l"]])
